@@ -89,6 +89,16 @@ func genC16(o *Out, rng *rand.Rand, tier string) {
 		emit("Advertise", inner, map[string]any{}, guard(func() map[string]any { return res6(dhcpv6.NewAdvertiseFromSolicit(inner)) }), "builder")
 		emit("Reply", inner, map[string]any{}, guard(func() map[string]any { return res6(dhcpv6.NewReplyFromMessage(inner)) }), "builder")
 		emit("Request", inner, map[string]any{}, guard(func() map[string]any { return res6(dhcpv6.NewRequestFromAdvertise(inner)) }), "builder")
+		if i%3 == 0 {
+			// the same builders with caller modifiers that supply identifiers and an identity association: whether the input is
+			// acceptable does not depend on them
+			mods := []dhcpv6.Modifier{dhcpv6.WithClientID(&dhcpv6.DUIDLL{HWType: 1, LinkLayerAddr: net.HardwareAddr{2, 0, 0, 0, 0, 9}}),
+				dhcpv6.WithServerID(&dhcpv6.DUIDEN{EnterpriseNumber: 9, EnterpriseIdentifier: []byte{1}}), dhcpv6.WithIANA(dhcpv6.OptIAAddress{IPv6Addr: net.ParseIP("2001:db8::7")})}
+			okOnly := func(m *dhcpv6.Message, err error) map[string]any { return map[string]any{"ok": err == nil && m != nil} }
+			emit("WithMods", inner, map[string]any{"builder": "Advertise"}, guard(func() map[string]any { return okOnly(dhcpv6.NewAdvertiseFromSolicit(inner, mods...)) }), "builder-with-modifiers")
+			emit("WithMods", inner, map[string]any{"builder": "Reply"}, guard(func() map[string]any { return okOnly(dhcpv6.NewReplyFromMessage(inner, mods...)) }), "builder-with-modifiers")
+			emit("WithMods", inner, map[string]any{"builder": "Request"}, guard(func() map[string]any { return okOnly(dhcpv6.NewRequestFromAdvertise(inner, mods...)) }), "builder-with-modifiers")
+		}
 		// ---- relay chains of depth 1..16
 		depth := pick(rng, 1, 2, 3, 8, 9, 10, 16, 1+rng.Intn(16), 1+rng.Intn(16), 31, 32, 33, 34, 40, 48) // beyond every hop-count limit a relay could have in mind (RFC 8415: 8 by default, 32 at most); the JSON reader of the trace specification nests 255 levels at most, four per relay level
 		var cur dhcpv6.DHCPv6 = inner
